@@ -45,6 +45,20 @@ chk("C03",
     "TLA+ spec + TLC exhaustive model checking; spec->impl behaviour replay; impl->spec trace validation",
     "DESIGN.md §5 C03")
 
+chk("C05",
+    "spec/gate/Gate.tla states the lowering gate twice -- a declarative rule set over every (occurrence, context) pair written "
+    "from the book and the property, and an operational walk shaped like lower_type/lower_out_type/lower_return_type -- and TLC "
+    "checks they agree (verdict, demanded backend features, every rejection explained by a named rule) on every (position, "
+    "type tree) of the grammar: 22 leaf kinds x ref/mutref/box/Option(std|Diplomat)/Result, 9 positions, depth 1 (quick, ~1.1k "
+    "cases) / depth 2 (thorough, ~11k cases); two negative models must be refuted. Every emitted case is rendered to a bridge "
+    "module and lowered by the real diplomat_core for each distinct probed backend profile and both settings of "
+    "unsafe_references_in_callbacks; verdicts must match, and error contexts of rejected cases must name the offending "
+    "Type / Type::method. Disagreements are re-run in isolation before being reported.",
+    "Bounded grammar (no traits-with-methods, no 128-bit, lifetimes limited to one named/elided/'static). Backend profiles are "
+    "probed black-box from the tool binary. Implied-bound restating (last clause) is checked with C04's lifetime model.",
+    "TLA+ spec (two formulations checked equal by TLC); spec->impl replay of every TLC-generated case through the real lowering",
+    "DESIGN.md §5 C05")
+
 NOT_YET = {}
 
 
